@@ -92,7 +92,7 @@ def mu_mix_owners(w, home):
             s |= {'C04', 'C11'}
         if not s:
             s = {home}
-    elif o == 'trylock-blocked':
+    elif o in ('trylock-blocked', 'asleep-on-free-mutex'):
         s = {'C02'}
     elif o in ('asleep-past-deadline', 'spinning-past-deadline'):
         s = {'C05'}
